@@ -290,7 +290,7 @@ class FastFourierTransform(FourierTransform):
         # Calculate the shift array when the output grid was shifted compared to the native shift
         # expcted by the numpy FFT implementation.
         shift = np.ones(self.input_grid.ndim) * shift
-        if np.allclose(shift, 0):
+        if np.all(shift == 0):
             self.shift_output = 1
         else:
             self.shift_output = _numexpr_grid_shift(-shift, self.input_grid)
